@@ -19,15 +19,17 @@ package store
 
 //@ pure func pathKind(p string) int
 
+//@ pure func pathHeight(p string) uint64
+//@ pure func pathHash(p string) share.DataHash
 //@ func (*Store).heightToPath
-//@   property C07
+//@   property C07 C05
 //@   trusted
-//@   ensures pathKind(result) == 0
+//@   ensures pathKind(result) == 0 && pathHeight(result) == height
 
 //@ func (*Store).hashToPath
-//@   property C07
+//@   property C07 C05
 //@   trusted
-//@   ensures pathKind(result) == (ext == odsFileExt ? 1 : 2)
+//@   ensures pathKind(result) == (ext == odsFileExt ? 1 : 2) && pathHash(result) == datahash
 
 //@ extern (github.com/celestiaorg/celestia-node/store/cache.Cache).Remove
 //@   effect $CacheDropped := $CacheDropped || err == nil
@@ -164,7 +166,8 @@ package store
 //@ func (*Getter).GetSamples
 //@   property C06 C05
 //@   noframe
-//@   requires hdr != nil
+//@   requires hdr != nil && !$AccOpen && g != nil && g.store != nil
+//@   havoc $AccOpen $OpenNotExist $StreamEnded
 //@   callpre Store).GetByHeight: $arg2 == hdr.Height()
 //@   callpre Accessor).Sample: $arg2 == indices[rangeindex]
 //@   ensures err != nil ==> len(result0) == 0
@@ -175,7 +178,8 @@ package store
 //@ func (*Getter).GetRow
 //@   property C06 C05
 //@   noframe
-//@   requires h != nil
+//@   requires h != nil && !$AccOpen && g != nil && g.store != nil
+//@   havoc $AccOpen $OpenNotExist $StreamEnded
 //@   callpre Store).GetByHeight: $arg2 == h.Height()
 //@   callpre Accessor).AxisHalf: $arg2 == rsmt2d.Row && $arg3 == rowIdx
 //@   callpre AxisHalf).ToRow: $arg0 == axisHalf
@@ -184,7 +188,8 @@ package store
 //@ func (*Getter).GetNamespaceData
 //@   property C06 C05
 //@   noframe
-//@   requires h != nil
+//@   requires h != nil && !$AccOpen && g != nil && g.store != nil
+//@   havoc $AccOpen $OpenNotExist $StreamEnded
 //@   callpre Store).GetByHeight: $arg2 == h.Height()
 //@   callpre eds.NamespaceData: $arg1 == acc && $arg2 == ns
 //@   ensures err != nil ==> result0 == nil
@@ -192,7 +197,8 @@ package store
 //@ func (*Getter).GetRangeNamespaceData
 //@   property C06 C05
 //@   noframe
-//@   requires h != nil
+//@   requires h != nil && !$AccOpen && g != nil && g.store != nil
+//@   havoc $AccOpen $OpenNotExist $StreamEnded
 //@   callpre Store).GetByHeight: $arg2 == h.Height()
 //@   callpre Accessor).RangeNamespaceData: $arg2 == from && $arg3 == to
 //@   ensures err != nil ==> result0.Shares == nil && result0.FirstIncompleteRowProof == nil && result0.LastIncompleteRowProof == nil
@@ -200,7 +206,86 @@ package store
 //@ func (*Getter).GetEDS
 //@   property C06 C05
 //@   noframe
-//@   requires h != nil && h.DAH != nil
+//@   requires h != nil && h.DAH != nil && !$AccOpen && g != nil && g.store != nil
+//@   havoc $AccOpen $OpenNotExist $StreamEnded
 //@   callpre Store).GetByHeight: $arg2 == h.Height()
 //@   callpre eds.Rsmt2DFromShares: $arg0 == shares && $arg1 == len(h.DAH.RowRoots) / 2
 //@   ensures err != nil ==> result0 == nil
+
+// ---------------------------------------------------------------------------------------------
+// C05 / C07, the read side of the store. A look-up by height goes to the serving cache for that height
+// and otherwise opens the height's own link (pathKind 0, pathHeight == height); a look-up by hash opens
+// that hash's ODS file. Opening: "the file does not exist" - and only that - is ErrNotFound, any other
+// failure is an error of its own; the parity file is looked for under the data hash read from the ODS
+// file just opened; a failure after the ODS file was opened closes it; nothing is handed out next to an
+// error. Presence (HasByHeight / HasByHash) is the cache or the existence of the same path.
+//@ extern local github.com/celestiaorg/celestia-node/store/file.OpenODS
+//@   effect $AccOpen := err == nil
+//@   effect $OpenNotExist := is(err, os.ErrNotExist)
+//@   ensures err == nil ==> result0 != nil
+//@ func (*Store).openAccessor
+//@   property C05 C07
+//@   noframe
+//@   requires s != nil && !$AccOpen
+//@   havoc $AccOpen $OpenNotExist $StreamEnded
+//@   callpre file.OpenODS: $arg0 == path
+//@   callpre Store).hashToPath: $arg1 == datahash && $arg2 == q4FileExt
+//@   callpre file.ODSWithQ4: $arg0 == ods && $arg1 == pathQ4
+//@   callpre store.wrapAccessor: $arg0 == iface(odsQ4)
+//@   ensures err != nil ==> result0 == nil && !$AccOpen
+//@   ensures err == nil ==> $AccOpen
+//@   ensures $OpenNotExist <==> err == ErrNotFound
+//@ func (*Store).getByHeight
+//@   property C05 C07
+//@   noframe
+//@   requires s != nil && !$AccOpen
+//@   havoc $AccOpen $OpenNotExist $StreamEnded
+//@   callpre Cache).Get: $arg1 == height
+//@   callpre Store).openAccessor: pathKind($arg2) == 0 && pathHeight($arg2) == height
+//@ func (*Store).getByHash
+//@   property C05 C07
+//@   noframe
+//@   requires s != nil && !$AccOpen
+//@   havoc $AccOpen $OpenNotExist $StreamEnded
+//@   callpre Store).openAccessor: pathKind($arg2) == 1 && pathHash($arg2) == datahash
+//@ func (*Store).GetByHeight
+//@   property C05 C07
+//@   noframe
+//@   requires s != nil && !$AccOpen
+//@   havoc $AccOpen $OpenNotExist $StreamEnded
+//@   callpre striplock).byHeight: $arg1 == height
+//@   callpre Store).getByHeight: $arg2 == height
+//@   checks result0 == f && result1 == err
+//@ func (*Store).GetByHash
+//@   property C05 C07
+//@   noframe
+//@   requires s != nil && !$AccOpen
+//@   havoc $AccOpen $OpenNotExist $StreamEnded
+//@   callpre striplock).byHash: $arg1 == datahash
+//@   callpre Store).getByHash: $arg2 == datahash
+//@ func exists
+//@   property C05 C07
+//@   callpre os.Stat: $arg0 == path
+//@   ensures result0 ==> err == nil
+//@ func (*Store).hasByHeight
+//@   property C05 C07
+//@   requires s != nil
+//@   callpre Cache).Has: $arg1 == height
+//@   callpre store.exists: pathKind($arg0) == 0 && pathHeight($arg0) == height
+//@ func (*Store).hasByHash
+//@   property C05 C07
+//@   requires s != nil
+//@   callpre store.exists: pathKind($arg0) == 1 && pathHash($arg0) == datahash
+//@ func (*Store).HasByHeight
+//@   property C05 C07
+//@   noframe
+//@   requires s != nil
+//@   callpre striplock).byHeight: $arg1 == height
+//@   callpre Store).hasByHeight: $arg1 == height
+//@   checks result0 == exist && result1 == err
+//@ func (*Store).HasByHash
+//@   property C05 C07
+//@   noframe
+//@   requires s != nil
+//@   callpre striplock).byHash: $arg1 == datahash
+//@   callpre Store).hasByHash: $arg1 == datahash
